@@ -112,6 +112,26 @@ theorem no_unmoves_no_predecessor (Q : Pos) (h : unMoves false Q = []) :
   rw [h] at this
   cases this
 
+/-- **repaired behaviour** (`fix: RevMoveGen::genMoves must not un-move the double push when the pawn's origin square …
+    is occupied`): a position with an e.p. square has predecessors only if the square the double-pushed pawn came from,
+    and the e.p. square itself, are empty — so the condition the repair adds never drops a predecessor -/
+theorem ep_origin_empty (Q : Pos) (x : UnMv) (e : Sq) (h : Pred Q x) (he : Q.ep = some e) :
+    Q.b.getD (if Q.wtm then e.val + 8 else e.val - 8) 0 = 0 ∧ Q.b.getD e.val 0 = 0 :=
+  pred_ep_origin_empty Q x e h he
+
+/-- the position `4k3/8/8/8/3pP3/8/4N3/4K3 b - e3` (accepted by the FEN reader; knight on the double push's origin) -/
+def witnessQ : Pos :=
+  { b := (Vector.replicate 64 0 |>.set 4 WKING |>.set 60 BKING |>.set 12 WKNIGHT |>.set 28 WPAWN |>.set 27 BPAWN),
+    wtm := false, castle := 0, ep := some (sq 20), hmc := 0, fmc := 1 }
+
+/-- **witness of the defect found**: `witnessQ` has no predecessor at all (the unrepaired `genMoves` listed `e2e4` for it,
+    whose predecessor lacks the knight; replay: known_findings.json `ep-origin-occupied`) -/
+theorem ep_origin_occupied_witness : ¬ ∃ x, Pred witnessQ x := by
+  rintro ⟨x, h⟩
+  have := (ep_origin_empty witnessQ x (sq 20) h rfl).1
+  revert this
+  decide
+
 /-- un-making a pseudo-legal move restores the predecessor (board, side to move, castle mask, e.p. square) -/
 theorem unmake_restores (P Q : Pos) (m : Mv) (hp : pseudo P m = true) (hs : epShape P = true)
     (hq : (fixupEP (apply P m)).core = Q.core) : (unmake Q m (undoInfo P m)).core = P.core :=
